@@ -36,4 +36,19 @@ def obligations(tier):
     obs.append(Ob("prefix-dispatch", "C08/pwhash.c", units=["crypto_pwhash/crypto_pwhash.c"] + COMMON, stubs=STUBS, defs={"PART": 4}, unwind=20,
                   timeout=600, family="prefix-dispatch", desc="crypto_pwhash_str_verify / _needs_rehash dispatch on the prefix; unknown prefix -> -1/EINVAL",
                   bounds="all 12-character prefixes"))
+    SC = "crypto_pwhash/scryptsalsa208sha256/"
+    RS = (0, 1, 8, 1 << 15, (1 << 30) - 1, 1 << 30, (1 << 32) - 1)
+    PS = (0, 1, 2, 1 << 15, (1 << 30) - 1, 1 << 30, (1 << 32) - 1)
+    QP = ((0, 1), (1, 0), (8, 1), (8, 2), (1 << 15, 1 << 15), (1, (1 << 30) - 1), (1, 1 << 30), ((1 << 30) - 1, 1), ((1 << 32) - 1, (1 << 32) - 1))
+    for nm, unit in (("nosse", SC + "nosse/pwhash_scryptsalsa208sha256_nosse.c"), ("sse", SC + "sse/pwhash_scryptsalsa208sha256_sse.c")):
+        for rv in RS:
+            for pv in PS:
+                q = (rv, pv) in QP
+                if tier != "thorough" and not q:
+                    continue
+                obs.append(Ob("scrypt-kdf-params-%s-r%d-p%d" % (nm, rv, pv), "C08/scrypt_params.c", units=[unit, "sodium/utils.c"], stubs=["libc.c", "x86_builtins.c"],
+                              defs={"KDF": "escrypt_kdf_" + nm, "RV": "%dU" % rv, "PV": "%dU" % pv}, unwind=4, timeout=600, mem=6, family="scrypt-parameter-validation",
+                              tier="quick" if q else "thorough",
+                              desc="escrypt_kdf refuses exactly the (N, r, p, buflen) outside RFC 7914 / documented limits or when the scratch region cannot be obtained; otherwise requests exactly 128rp+128rN+256r+64 bytes and starts PBKDF2 over 128rp bytes",
+                              bounds="N, buflen, available region size 64-bit symbolic, allocator outcome symbolic; (r, p) enumerated over boundary values"))
     return obs
